@@ -42,6 +42,20 @@ def run(ctx):
     C15.run(_Only(ctx, "R1", "R6"))
     C15.run(_Only(ctx, "R2", "R6"))
     C15.run(_Only(ctx, "R3", "R6"))
+    if not getattr(ctx, "_src", None):
+        # nodes evaluated in the second pass start from the outputs their first-pass parents left in the cross-pass cache (C01 R4),
+        # and the set the overlay is built from keeps every declared mutation (computed ones are only appended)
+        from . import C01
+        ctx.rule("R8", "second-pass nodes receive their first-pass parents' outputs (C01 R4); the returned set keeps the declared mutations and only appends computed ones")
+        C01.run(_Only(ctx, "R4", "R8"))
+        dm = prog.fn("essential_check::solution::decode_mutations")
+        if ctx.anchor("R8", "fn decode_mutations", dm):
+            muts = []
+            for bb, t in dm.calls():
+                tys = [M.norm_ty(x) for x in t.get("arg_tys", [])]
+                if tys and tys[0] == "&mut std::vec::Vec<essential_types::solution::Mutation>" and not dm.blocks[bb]["cleanup"]:
+                    muts.append(M.callee_of(t).split("::")[-1])
+            ctx.ob("R8", "declared-mutations-are-kept:only-push-on-state_mutations", muts == ["push"], dm.loc(0), "mutating calls on a solution's state_mutations: %s" % muts, dm)
     ctx.rule("R7", "per-key overlay: a mutated key yields the mutation's value, any other key one word-vector read from the pre-state at that key; the key advances by next_key (carry from the last word) once per value")
     r7(ctx, prog)
 
